@@ -153,6 +153,16 @@ func (x *EvalCtx) evalIdent(name string) TV {
 			return v
 		}
 	}
+	// callback bookkeeping of higher-order contracts
+	if name == "called" {
+		cell := c.cellVar("CB_called", tyBool)
+		return TV{c.get(x.st, cell), tyBool}
+	}
+	if name == "fnret" {
+		et := types.Universe.Lookup("error").Type()
+		cell := c.cellVar("CB_ret", et)
+		return TV{c.get(x.st, cell), et}
+	}
 	// ghost variable
 	if g, ok := c.eng.cf.Ghosts[name]; ok {
 		ty, err := c.eng.resolveType(g.Type)
@@ -179,6 +189,7 @@ func (x *EvalCtx) evalIdent(name string) TV {
 			return TV{False, tyBool}
 		}
 	case *types.Var:
+		c.initFacts()
 		cell := c.cellVar("GL_"+name, o.Type())
 		return TV{c.get(x.st, cell), o.Type()}
 	}
@@ -451,11 +462,27 @@ func (x *EvalCtx) evalCall(e *Expr) TV {
 		c.declareFun("parseTimeVal", []Sort{SInt}, SInt)
 		tt, _ := c.eng.resolveType("time.Time")
 		return TV{Term{app("parseTimeVal", a.T), SInt}, tt}
+	case "errMsgIs":
+		a := x.eval(e.Args[0])
+		b := x.eval(e.Args[1])
+		c.declareFun("errMsg", []Sort{SInt}, SInt)
+		return TV{Eq(Term{app("errMsg", a.T), SInt}, b.T), tyBool}
 	case "trimSpace":
 		a := x.eval(e.Args[0])
 		return TV{c.trimSpace(a.T), tyString}
 	case "foldl8":
 		return x.evalFold(e)
+	case "deref":
+		a := x.eval(e.Args[0])
+		pt, ok := a.Ty.Underlying().(*types.Pointer)
+		if !ok {
+			efail("deref of non-pointer")
+		}
+		if _, isStruct := isStructPtr(a.Ty); isStruct {
+			efail("deref of struct pointer: use field selection")
+		}
+		heap, s := c.boxHeap(pt.Elem())
+		return TV{Select(c.get(x.st, heap), a.T, s), pt.Elem()}
 	case "cap":
 		a := x.eval(e.Args[0])
 		if a.T.Sort != SSlice {
